@@ -14,7 +14,7 @@
    in a tick, and whatever they raise, its state is the same -- this is the "one or several consumers" clause. *)
 From Coq Require Import ZArith NArith Bool String List Lia.
 Require Import PV.Base.Val PV.Gen.Window PV.Model.Window.
-Require Import PV.Proofs.Window PV.Proofs.WindowSpec PV.Proofs.WindowCount PV.Proofs.WindowState PV.Proofs.WindowMixed PV.Proofs.WindowTick.
+Require Import PV.Proofs.Window PV.Proofs.WindowSpec PV.Proofs.WindowCount PV.Proofs.WindowState PV.Proofs.WindowTick.
 Import ListNotations.
 Open Scope Z_scope.
 Open Scope list_scope.
@@ -25,7 +25,7 @@ Theorem C11_step_order : win_step_order = [0; 1; 2; 3; 4; 5; 6; 7].
 Proof. exact win_step_order_ok. Qed.
 
 Theorem C11_other_step_orders :
-  tr_step_order = [0; 1; 2; 3] /\ st_step_order = [0; 1; 2; 3; 4; 5] /\ st_state_index_from_end = 1.
+  tr_step_order = [0; 1; 2; 3; 4] /\ st_step_order = [0; 1; 2; 3; 4; 5] /\ st_state_index_from_end = 1.
 Proof. exact other_step_orders_ok. Qed.
 
 (* a stream whose guard time has reached t is not changed by anything that is stepped at time t *)
@@ -133,17 +133,20 @@ Theorem C11_countByWindow_spec_unchanged : forall q w s tail, 0 < s -> forall ts
                     :: Trans FReduceAdd 3 :: tail) ts) 4.
 Proof. exact count_spec_unchanged. Qed.
 
-(* what k consumers of countByWindow observe, and which ticks raise: the ticks before the first emission end
-   with AttributeError (the window's RDD is None) and log nothing; every later tick logs one capture per
-   consumer of the count stream's RDD *)
+(* what k consumers of countByWindow observe: no tick raises; in the intervals before the first emission the
+   consumers' functions are not called (the transformed streams wait for their parent's first RDD); every later tick
+   logs one capture per consumer of the count stream's RDD (count_log = cons_log of count_rdd of the window's RDD) *)
 Theorem C11_countByWindow_consumers : forall q w s k, 0 < s -> forall ts, increasing 0 ts ->
-  run_graph (prog_count q w s k) ts = (final (prog_count q w s k) ts, count_errors (win_rdd_spec q w s) 0 ts) /\
+  run_graph (prog_count q w s k) ts = (final (prog_count q w s k) ts, map (fun _ => None) ts) /\
   glog (final (prog_count q w s k) ts) = count_log (win_rdd_spec q w s) k 0 ts.
 Proof. exact count_consumers. Qed.
 
+(* the windowed stream's RDD is None -- consumers are not called -- exactly in the intervals before interval s *)
 Theorem C11_window_none_iff_early : forall q w s n, 0 < s ->
   is_none_rdd (win_rdd_spec q w s n) = (Z.of_nat n <? s).
 Proof. exact is_none_win_rdd_spec. Qed.
+Theorem C11_count_none_iff_window_none : forall r, is_none_rdd (count_rdd r) = is_none_rdd r.
+Proof. exact is_none_count_rdd. Qed.
 
 (* ================= state_spec ================= *)
 (* The queue holds keyed batches kq (encoded as (key, value) tuples); [vals k b] are the values of key k in batch
@@ -207,28 +210,6 @@ Theorem C11_state_consumers : forall u kq k ts, increasing 0 ts ->
   glog (final (prog_state (enc_queue kq) u k) ts) = cons_log (state_rdd u kq) k 0 ts.
 Proof. exact stateful_consumers. Qed.
 
-(* ================= the full statement, its proved part, its refutation =================
-   Full: "wherever the stateful stream is registered in a well-formed program on its queue source, its RDD after
-   interval n is the fold of the whole history".  This is FALSE of the code as it is: a stream registered before
-   it that raises inside the tick callback (countByWindow with a slide > 1 before its first emission: the
-   window's RDD is None and TransformedDStream._step applies the user function to it) ends the callback, the
-   stateful stream is not stepped in that interval although the source has already popped the batch.
-   Proved part: C11_state_rdd / C11_state_spec above -- the stateful stream registered directly after its source
-   (stream 1), whatever is registered after it.  The refutation's witness is corpus/C11/finding_count_then_state.json
-   (known finding, open). *)
-Definition C11_state_spec_full : Prop := state_spec_any_position.
-Theorem C11_state_spec_registered_first_partial : forall u kq tail ts, increasing 0 ts -> (0 < length ts)%nat ->
-  rdd_of (final (Src (enc_queue kq) :: Stateful u 0 :: tail) ts) 1
-  = RData (map enc_kv (state_after u kq (length ts))).
-Proof. exact state_collected. Qed.
-Theorem C11_state_spec_full_refuted : ~ C11_state_spec_full.
-Proof. exact state_spec_any_position_refuted. Qed.
-Theorem C11_state_spec_full_witness :
-  rdd_of (final witness_graph [1; 2]) 6 = RData [] /\
-  snd (run_graph witness_graph [1; 2]) = [Some "AttributeError"%string; None] /\
-  RData (map enc_kv (state_after u_sum witness_kq 2)) = RData [VTup [VInt 0; VInt 1]].
-Proof. exact witness_state. Qed.
-
 (* ================= non-vacuity / sanity ================= *)
 Example increasing_example : increasing 0 [1; 2; 4; 7].
 Proof. cbn. repeat split; reflexivity. Qed.
@@ -238,23 +219,24 @@ Example window_doctest :
   map (fun e => snd e) (glog (final (prog_window q 3 1 1) [1; 2; 3; 4; 5; 6]))
   = map (fun l => Some (map VInt l)) [[1]; [1; 2]; [1; 2; 3]; [2; 3; 4]; [3; 4; 5]; [4; 5; 6]].
 Proof. vm_compute. reflexivity. Qed.
-(* the history of the repaired defect: slide 2, two consumers *)
+(* the history of the repaired defect e98bc04: slide 2, two consumers (not called in interval 1) *)
 Example window_slide2_two_consumers :
   let q := map (fun z => [VInt z]) [1; 2; 3; 4; 5] in
   map (fun e => snd e) (glog (final (prog_window q 3 2 2) [1; 2; 3; 4]))
-  = [None; None; Some [VInt 1; VInt 2]; Some [VInt 1; VInt 2]; Some [VInt 1; VInt 2]; Some [VInt 1; VInt 2];
+  = [Some [VInt 1; VInt 2]; Some [VInt 1; VInt 2]; Some [VInt 1; VInt 2]; Some [VInt 1; VInt 2];
      Some [VInt 2; VInt 3; VInt 4]; Some [VInt 2; VInt 3; VInt 4]].
 Proof. vm_compute. reflexivity. Qed.
-(* the doctest of countByWindow; and a slide of 2: the first tick raises *)
+(* the doctest of countByWindow; and a slide of 2: nothing is logged (and nothing raises) in the first interval *)
 Example count_doctest :
   let q := map (map VInt) [[1; 1; 5]; [5; 5; 2; 4]; [1; 2]] in
   map (fun e => snd e) (glog (final (prog_count q 2 1 1) [1; 2; 3]))
   = [Some [VInt 3]; Some [VInt 7]; Some [VInt 6]].
 Proof. vm_compute. reflexivity. Qed.
-Example count_slide2_raises :
+Example count_slide2_waits :
   let q := map (map VInt) [[1; 1]; [2]] in
-  snd (run_graph (prog_count q 2 2 1) [1; 2]) = [Some "AttributeError"%string; None].
-Proof. vm_compute. reflexivity. Qed.
+  run_graph (prog_count q 2 2 1) [1; 2] = (final (prog_count q 2 2 1) [1; 2], [None; None]) /\
+  glog (final (prog_count q 2 2 1) [1; 2]) = [(2, 0, Some [VInt 3])].
+Proof. vm_compute. split; reflexivity. Qed.
 (* the second doctest of updateStateByKey (sum), keys 0 = 'a', 1 = 'b' *)
 Example state_doctest :
   let kq := [[(0, VInt 1)]; [(0, VInt 2); (1, VInt 4); (1, VInt 3)]] in
